@@ -585,7 +585,7 @@ def gen_system(rng):
     T = g(1.0, 4.0)
     spec["tlist"] = [T * k / nt for k in range(nt + 1)] if rng.random() < 0.7 else \
         sorted(set([0.0, T] + [g(0.0, T) for _ in range(nt - 1)]))
-    spec["method"] = rng.choice(["adams", "adams", "dop853", "vern7", "lsoda", "bdf", "tsit5"])
+    spec["method"] = rng.choice(["adams", "adams", "dop853", "vern7", "lsoda", "bdf", "vern9"])
     spec["norm_tol"] = rng.choice([1e-4, 1e-4, 1e-6, 1e-3])
     spec["norm_t_tol"] = rng.choice([1e-6, 1e-6, 1e-8, 1e-4])
     spec["norm_steps"] = rng.choice([5, 5, 8, 12])
@@ -602,7 +602,7 @@ def spec_to_json(spec):
         if isinstance(x, list):
             return [enc(y) for y in x]
         return x
-    return {k: enc(v) for k, v in spec.items()}
+    return {k: enc(v) for k, v in spec.items() if not k.startswith("_")}
 
 
 def spec_from_json(js):
@@ -652,7 +652,35 @@ def run_qutip(spec):
         st = qutip.Qobj(spec["psi0"].reshape(d, 1))
     else:
         st = qutip.Qobj(spec["rho0"])
-    res = solver.run(st, spec["tlist"], ntraj=spec["ntraj"], seeds=spec["seed"])
+    mcs = sys.modules["qutip.solver.mcsolve"]
+    orig = mcs.MCIntegrator._find_collapse_time
+    calls = spec.setdefault("_finds", [])
+    del calls[:]
+
+    def recording(self, norm_old, norm, t_prev, t_final):
+        call = {"t_prev": float(t_prev), "t_final": float(t_final), "target": float(self.target_norm),
+                "recs": [], "raised": False}
+        calls.append(call)
+        real = self._integrator.mcstep
+
+        def ms(t, copy=True):
+            r = real(t, copy)
+            call["recs"].append((float(t), float(self._prob_func(r[1]))))
+            return r
+        self._integrator.mcstep = ms
+        try:
+            return orig(self, norm_old, norm, t_prev, t_final)
+        except RuntimeError:
+            call["raised"] = True
+            raise
+        finally:
+            del self._integrator.mcstep
+
+    mcs.MCIntegrator._find_collapse_time = recording
+    try:
+        res = solver.run(st, spec["tlist"], ntraj=spec["ntraj"], seeds=spec["seed"])
+    finally:
+        mcs.MCIntegrator._find_collapse_time = orig
     return res
 
 
@@ -895,6 +923,21 @@ def check_run(spec):
         res = run_qutip(spec)
     except Exception as e:            # noqa
         msg = "%s: %s" % (type(e).__name__, str(e)[:200])
+        calls = spec.get("_finds", [])
+        if isinstance(e, RuntimeError) and "collapse time" in str(e) and calls and calls[-1]["raised"]:
+            c = calls[-1]
+            succ, stag = analyse_search(spec["norm_steps"], spec["norm_t_tol"], spec["norm_tol"],
+                                        c["target"], c["t_prev"], c["t_final"], c["recs"])
+            det = {"error": msg, "search": c}
+            if succ not in (None, "inconsistent"):
+                sig = LAST_SIG if succ == spec["norm_steps"] else "raises-although-found-earlier"
+                return [("find:" + sig, msg + " (try %d of %d had found it)" % (succ, spec["norm_steps"]),
+                         det)], stats
+            if stag:
+                return [("find:" + STAG_SIG, msg + " (the same guess t_prev + norm_t_tol was repeated)",
+                         det)], stats
+            stats["search_exhausted"] = 1
+            return [], stats          # documented behaviour: tolerance not reachable [NUM]
         return [("mcsolve-raised:" + type(e).__name__, msg, {"error": msg})], stats
     bad = []
     opts = {"norm_tol": spec["norm_tol"], "norm_t_tol": spec["norm_t_tol"]}
@@ -1087,6 +1130,38 @@ def check_mcstep(method, t0, rng):
     return bad
 
 
+STAG_SIG = "search-stagnates-when-bracket-width-equals-norm_t_tol"
+LAST_SIG = "success-on-last-allowed-try-raises"
+
+
+def analyse_search(norm_steps, t_tol, n_tol, target, tp, tf, recs):
+    """recs: [(t_guess, norm2 seen)] of one _find_collapse_time call.
+    Returns (first successful try or None, stagnated?)."""
+    succ = None
+    recs = list(recs)
+    prev_g = None
+    stag = False
+    for tries in range(1, norm_steps + 1):
+        if (tf - tp) < t_tol:
+            succ = tries
+            break
+        if not recs:
+            return "inconsistent", False
+        g, n2 = recs.pop(0)
+        if prev_g is not None and g == prev_g and (tf - tp) <= t_tol * (1 + 1e-9):
+            stag = True
+        prev_g = g
+        if abs(target - n2) < n_tol * target:
+            succ = tries
+            break
+        elif n2 < target:
+            tf = g
+        else:
+            tp = g
+    return succ, stag
+
+
+
 # ------------------------------------------ property oracle on scripted runs
 def analyse_scripted(case, r):
     """The property itself on a scripted MCIntegrator run, from the recorded
@@ -1162,54 +1237,46 @@ def analyse_scripted(case, r):
                     "%d mcstep requests before the start of the last step" % r["illegal"]))
     # every call of _find_collapse_time
     for call in r.get("finds", []):
-        tp, tf = call["t_prev"], call["t_final"]
-        target = call["target"]
         sg = call["seg"]
-        succ = None
-        reqs = list(call["reqs"])
-        cur = tf
-        consistent = True
-        for tries in range(1, o["norm_steps"] + 1):
-            if (tf - tp) < o["norm_t_tol"]:
-                succ = tries
-                break
-            if not reqs:
-                consistent = False
-                break
-            g = reqs.pop(0)
+        recs = []
+        cur = call["t_final"]
+        okrec = True
+        for g in call["reqs"]:
             s_t = tabs["stp"].get((sg, cur, g), g)
             cur = s_t
             n2 = tabs["nrm2"].get((sg, s_t))
             if n2 is None:
-                consistent = False
+                okrec = False
                 break
-            if abs(target - n2) < o["norm_tol"] * target:
-                succ = tries
-                break
-            elif n2 < target:
-                tf = g
-            else:
-                tp = g
-        if not consistent:
+            recs.append((g, n2))
+        if not okrec:
             continue
+        succ, stag = analyse_search(o["norm_steps"], o["norm_t_tol"], o["norm_tol"], call["target"],
+                                    call["t_prev"], call["t_final"], recs)
+        if succ == "inconsistent":
+            continue
+        site = "mcsolve.MCIntegrator._find_collapse_time"
         if call["raised"] and succ is not None:
             if succ == o["norm_steps"]:
-                out.append(("mcsolve.MCIntegrator._find_collapse_time",
-                            "success-on-last-allowed-try-raises",
+                out.append((site, LAST_SIG,
                             "norm_steps=%d: try %d found the collapse (bracket width or norm within "
                             "tolerance) but RuntimeError is raised" % (o["norm_steps"], succ)))
             else:
-                out.append(("mcsolve.MCIntegrator._find_collapse_time", "raises-although-found-earlier",
+                out.append((site, "raises-although-found-earlier",
                             "try %d of %d found the collapse but RuntimeError is raised"
                             % (succ, o["norm_steps"])))
+        if call["raised"] and succ is None and stag and not case["malformed"]:
+            out.append((site, STAG_SIG,
+                        "the crossing lies within norm_t_tol after t_prev: the guess is clamped to "
+                        "t_prev + norm_t_tol = t_final again and again (bracket width == norm_t_tol is "
+                        "not < norm_t_tol) until norm_steps=%d is exhausted" % o["norm_steps"]))
         if (not call["raised"]) and succ is None:
-            out.append(("mcsolve.MCIntegrator._find_collapse_time", "returns-without-meeting-tolerance",
+            out.append((site, "returns-without-meeting-tolerance",
                         "a collapse time is returned although no try met norm_tol / norm_t_tol"))
         if (not call["raised"]) and succ is not None and not case["malformed"]:
             tcol, s_time = call["ret"]
-            n_prev = call["norm_old"]
             if not (call["t_prev"] <= tcol <= call["t_final"]):
-                out.append(("mcsolve.MCIntegrator._find_collapse_time", "collapse-time-outside-step",
+                out.append((site, "collapse-time-outside-step",
                             "t=%r outside [%r, %r]" % (tcol, call["t_prev"], call["t_final"])))
     return out
 
@@ -1267,7 +1334,7 @@ def compare_scripted(ctx, cases, label):
             if mism <= 3:
                 keys = [k for k in im if im[k] != m[k]]
                 props = analyse_scripted(c, r)
-                unknown = [p for p in props if p[1] != "success-on-last-allowed-try-raises"]
+                unknown = [p for p in props if p[1] not in (LAST_SIG, STAG_SIG)]
                 ctx.violation("corr:mcsolve.MCIntegrator", "model-differs:" + keys[0],
                               "MCIntegrator and the Coq model disagree on %s for a scripted run%s"
                               % (keys, ("; the run violates the property: " + unknown[0][2]) if unknown else ""),
@@ -1397,6 +1464,9 @@ def run(ctx):
                        nontrivial=st["jumps"] > 0)
         for sig, message, det in bad[:2]:
             site = "mcsolve:trajectory-oracle"
+            if sig.startswith("find:"):
+                site = "mcsolve.MCIntegrator._find_collapse_time"
+                sig = sig[5:]
             if spec["method"] == "lsoda" and sig.startswith("mcsolve-raised"):
                 # attribute to the lsoda restart defect only if the reference
                 # prescribes a collapse later than t = 2.25 in some trajectory
